@@ -9,9 +9,11 @@ from props._a_common import (frob, rep_scale, tt_unfoldings, mode_unfoldings, sv
 RULE = ("one PRNG(seed): hybrid tensors with 1..5 modes, per-mode format (TT|CP)x(no factor|narrow|square|wide), float64 Gaussian "
         "entries, in the variants generic | illcond (Tucker factors with condition number 10..1e6 and scale 1e-2..1e2) | rankdef "
         "(rank-deficient bonds, collinear CP columns) | zero (a zero core or factor) | overrank (ranks up to 9 on modes of size 2..3) | "
-        "scaled (a core or factor scaled by 1e-4..1e4) | tinynorm (norm of the tensor 1e-16..1e-14); each through round_tt, "
+        "scaled (a core or factor scaled by 1e-4..1e4) | decay (bond/column j weighted by q^j, q in {.5,.1,.01}) | tinynorm (norm of the "
+        "tensor 1e-16..1e-14); each through round_tt, "
         "round_tucker (occasionally with dim=subset) and round, as in-place method on a clone or as copying tn.round*; "
-        "eps log-uniform in [1e-6, 0.5] (or eps=1e-12 with algorithm svd: the rank-revealing clause); algorithm svd|eig; rmax none | "
+        "eps log-uniform in [1e-6, 0.5], or (half of the cases) 1..1.3 times the value at which some unfolding of the dense input just "
+        "crosses a truncation boundary, or eps=1e-12 with algorithm svd (the rank-revealing clause); algorithm svd|eig; rmax none | "
         "scalar | per-bond/per-mode list.  Dense arrays (generic, decaying, low-rank, zero, tiny) through Tensor(x, eps=, algorithm=); "
         "sparse sample sets through sparse_tt_svd (eps >= 1e-6, Gram path).  Oracle: ||x - y||_F on the independent NumPy "
         "decompression x of the input; allowed = (eps(1+1e-6) + 1e-12)||x|| + 1e-13*S where S = product of the Frobenius norms of "
@@ -142,9 +144,9 @@ def _mk_dense(rng, fill, shape):
 
 
 def cases(rng, tier):
-    nh = {"quick": 1100, "thorough": 16000, "search": 5500}[tier]
-    nd = {"quick": 160, "thorough": 2400, "search": 800}[tier]
-    ns = {"quick": 100, "thorough": 1500, "search": 500}[tier]
+    nh = {"quick": 2200, "thorough": 16000, "search": 5500}[tier]
+    nd = {"quick": 240, "thorough": 2400, "search": 800}[tier]
+    ns = {"quick": 160, "thorough": 1500, "search": 500}[tier]
     out = []
     for _ in range(nh):
         N = rng.choice([1, 2, 2, 3, 3, 3, 4, 4, 5])
@@ -161,7 +163,7 @@ def cases(rng, tier):
                 c["rmax"] = {"kind": "scalar", "tt": k, "tucker": k}
             else:
                 c["rmax"] = {"kind": "list", "tt": [rng.randint(1, 6) for _ in range(N - 1)], "tucker": [rng.randint(1, 6) for _ in range(N)]}
-        if N >= 2 and rng.random() < 0.08:
+        if N >= 2 and rng.random() < 0.12:
             k = rng.randint(1, N - 1)
             c["dim"] = sorted(rng.sample(range(N), k))
         out.append(c)
